@@ -65,7 +65,7 @@ def run_one(sid, seed, slot):
                 break
         res.update(rc=p.returncode, wall_s=round(time.time() - t0), violation_lines=len(viol), with_found_input=len(found),
                    layers=kinds, first_found=first,
-                   outcome=(("NEUTRALISED-silent-as-it-should-be" if p.returncode == 0 else "NEUTRALISED-BUT-ALARM") if meta.get("neutralised_by") else "CAUGHT-with-input" if found else "CAUGHT-no-input" if viol else "MISSED" if p.returncode == 0 else "MACHINERY-rc%d" % p.returncode))
+                   outcome=(("NEUTRALISED-silent-as-it-should-be" if p.returncode == 0 else "NEUTRALISED-BUT-INPUT-FOUND" if found else "NEUTRALISED-pinned-shape-alarm-no-input") if meta.get("neutralised_by") else "CAUGHT-with-input" if found else "CAUGHT-no-input" if viol else "MISSED" if p.returncode == 0 else "MACHINERY-rc%d" % p.returncode))
         return res
     finally:
         sh("git -C /repo worktree remove --force %s" % wt)
@@ -116,7 +116,7 @@ def main():
         for r in allr:
             f.write("| %s | %s | %s | %s (%s) | %s | %s |\n" % (r["seed_id"], r.get("property"), r.get("outcome"), r.get("violation_lines"),
                                                             r.get("with_found_input"), ", ".join("%s×%d" % kv for kv in sorted((r.get("layers") or {}).items())), r.get("wall_s")))
-    bad = [r["seed_id"] for r in results if r.get("outcome") not in ("CAUGHT-with-input", "NEUTRALISED-silent-as-it-should-be")]
+    bad = [r["seed_id"] for r in results if r.get("outcome") not in ("CAUGHT-with-input", "NEUTRALISED-silent-as-it-should-be", "NEUTRALISED-pinned-shape-alarm-no-input")]
     print("not caught with a found input:", bad)
     shutil.rmtree(SCR, ignore_errors=True) if "--keep" not in sys.argv else None
     return 0
